@@ -42,9 +42,22 @@ FUNCTIONS = {
     "datasetBaseInit": ("src/sedpack/io/dataset_base.py", "DatasetBase.__init__"),
     "fillerCtxInit": ("src/sedpack/io/dataset_filler.py", "_DatasetFillerContext.__init__"),
     "getNewShard": ("src/sedpack/io/dataset_filler.py", "_DatasetFillerContext._get_new_shard"),
+    "imapUnordered": ("src/sedpack/io/itertools/lazy_pool.py", "LazyPool.imap_unordered"),
+    "collectorRun": ("src/sedpack/io/itertools/lazy_pool.py", "Collector.run"),
+    # the reading side: for these, a store whose target is rooted at `self` is emitted as `selfset:<attr>` / `selfaug:<attr>`
+    "shardInfoIterator": ("src/sedpack/io/dataset_base.py", "DatasetBase.shard_info_iterator"),
+    "shardPathsDataset": ("src/sedpack/io/dataset_iteration.py", "DatasetIteration.shard_paths_dataset"),
+    "asNumpyCommon": ("src/sedpack/io/dataset_iteration.py", "DatasetIteration.as_numpy_common"),
+    "asNumpyIterator": ("src/sedpack/io/dataset_iteration.py", "DatasetIteration.as_numpy_iterator"),
+    "asNumpyIteratorConcurrent": ("src/sedpack/io/dataset_iteration.py", "DatasetIteration.as_numpy_iterator_concurrent"),
+    "asNumpyIteratorAsync": ("src/sedpack/io/dataset_iteration.py", "DatasetIteration.as_numpy_iterator_async"),
+    "asNumpyIteratorRust": ("src/sedpack/io/dataset_iteration.py", "DatasetIteration.as_numpy_iterator_rust"),
+    "asTfdataset": ("src/sedpack/io/dataset_iteration.py", "DatasetIteration.as_tfdataset"),
 }
+READERS = {"shardInfoIterator", "shardPathsDataset", "asNumpyCommon", "asNumpyIterator", "asNumpyIteratorConcurrent", "asNumpyIteratorAsync",
+           "asNumpyIteratorRust", "asTfdataset"}
 MARKED = {"poolExit", "poolReset", "shuffleBuffer", "shuffleBufferAsync", "roundRobin", "roundRobinAsync", "getHashFunction", "hashChecksums",
-          "datasetBaseInit", "fillerCtxInit", "getNewShard"}
+          "datasetBaseInit", "fillerCtxInit", "getNewShard", "imapUnordered", "collectorRun"} | READERS
 
 
 def _find(tree: ast.Module, qual: str):
@@ -74,9 +87,10 @@ def _last(expr: ast.AST) -> str:
 class _Events(ast.NodeVisitor):
     """Evaluation order: arguments before the call, the value before the assignment target."""
 
-    def __init__(self, marks: bool = False):
+    def __init__(self, marks: bool = False, selfmarks: bool = False):
         self.ev: list[str] = []
         self.marks = marks
+        self.selfmarks = selfmarks
 
     def visit_Try(self, node: ast.Try):
         if not self.marks:
@@ -128,7 +142,11 @@ class _Events(ast.NodeVisitor):
 
     def _target(self, t: ast.AST, kind: str):
         if isinstance(t, (ast.Attribute, ast.Subscript)):
-            self.ev.append(f"{kind}:{_last(t)}")
+            root = t
+            while isinstance(root, (ast.Attribute, ast.Subscript)):
+                root = root.value
+            on_self = self.selfmarks and isinstance(root, ast.Name) and root.id == "self"
+            self.ev.append(f"{'self' if on_self else ''}{kind}:{_last(t)}")
         elif isinstance(t, (ast.Tuple, ast.List)):
             for e in t.elts:
                 self._target(e, kind)
@@ -179,7 +197,7 @@ def events(tag: str) -> list[str]:
     node = _find(ast.parse(p.read_text()), qual)
     if node is None:
         return ["<missing function>"]
-    v = _Events(marks=tag in MARKED)
+    v = _Events(marks=tag in MARKED, selfmarks=tag in READERS)
     for st in node.body:
         v.visit(st)
     return v.ev
@@ -187,11 +205,12 @@ def events(tag: str) -> list[str]:
 
 def gen_src(dest: Path | None = None) -> bool:
     defs = []
-    kinds = {"cmp": set(), "store": set()}
+    kinds = {"cmp": set(), "store": set(), "selfstore": set()}
     for tag, (file, qual) in FUNCTIONS.items():
         ev = events(tag)
         kinds["cmp"] |= {e for e in ev if e.startswith("cmp:")}
         kinds["store"] |= {e for e in ev if e.startswith(("set:", "aug:"))}
+        kinds["selfstore"] |= {e for e in ev if e.startswith(("selfset:", "selfaug:"))}
         defs.append(f"/-- `{qual}` ({file}) -/\ndef {tag} : List String := [{', '.join(_lean_str(e) for e in ev)}]")
     text = '''/-!
 GENERATED by harness/extract_order.py — do not edit.
@@ -207,9 +226,12 @@ namespace Sedpack.Src
 string operations do not reduce in the kernel) -/
 def cmpEvents : List String := [CMPS]
 def storeEvents : List String := [STORES]
+/-- (reading side only) stores whose target is rooted at `self` -/
+def selfStoreEvents : List String := [SELFSTORES]
 /-- does the function compare anything / store into an attribute or subscript? -/
 def hasCmp (l : List String) : Bool := l.any (fun e => cmpEvents.contains e)
 def hasStore (l : List String) : Bool := l.any (fun e => storeEvents.contains e)
+def hasSelfStore (l : List String) : Bool := l.any (fun e => selfStoreEvents.contains e)
 /-- how often an event occurs -/
 def occurrences (l : List String) (a : String) : Nat := (l.filter (· == a)).length
 
@@ -231,7 +253,7 @@ def noneBefore (l : List String) (b a : String) : Bool :=
 
 end Sedpack.Src
 '''
-    text = text.replace("CMPS", ", ".join(_lean_str(e) for e in sorted(kinds["cmp"]))).replace("STORES", ", ".join(_lean_str(e) for e in sorted(kinds["store"])))
+    text = text.replace("CMPS", ", ".join(_lean_str(e) for e in sorted(kinds["cmp"]))).replace("SELFSTORES", ", ".join(_lean_str(e) for e in sorted(kinds["selfstore"]))).replace("STORES", ", ".join(_lean_str(e) for e in sorted(kinds["store"])))
     return write_if_changed((dest or (LEAN / "SedpackProps")) / "SrcGen.lean", text)
 
 
